@@ -279,28 +279,28 @@ func (s *muxerStream) hasContent() bool {
 }
 
 func (s *muxerStream) hasPart(segmentID uint64, partID uint64) bool {
-	if segmentID == s.nextSegmentID {
-		if partID < uint64(len(s.nextSegment.(*muxerSegmentFMP4).parts)) {
+	if segmentID != s.nextSegmentID {
+		// listed segments and gaps are numbered consecutively, the open segment follows them
+		first := s.nextSegmentID - uint64(len(s.segments))
+		if segmentID < first || segmentID > s.nextSegmentID {
+			return false
+		}
+
+		seg, ok := s.segments[segmentID-first].(*muxerSegmentFMP4)
+		if !ok || partID < uint64(len(seg.parts)) {
 			return true
 		}
-	} else {
-		for _, sop := range s.segments {
-			if seg, ok := sop.(*muxerSegmentFMP4); ok && segmentID == seg.id {
-				// If the Client requests a Part Index greater than that of the final
-				// Partial Segment of the Parent Segment, the Server MUST treat the
-				// request as one for Part Index 0 of the following Parent Segment.
-				if partID >= uint64(len(seg.parts)) {
-					segmentID++
-					partID = 0
-					continue
-				}
 
-				return true
-			}
+		// If the Client requests a Part Index greater than that of the final
+		// Partial Segment of the Parent Segment, the Server MUST treat the
+		// request as one for Part Index 0 of the following Parent Segment.
+		if segmentID+1 != s.nextSegmentID {
+			return true
 		}
+		partID = 0
 	}
 
-	return false
+	return partID < uint64(len(s.nextSegment.(*muxerSegmentFMP4).parts))
 }
 
 func (s *muxerStream) handleMediaPlaylist(w http.ResponseWriter, r *http.Request) {
